@@ -4,9 +4,11 @@ package symgo
 // conversions (encoding/json, sigs.k8s.io/json, sigs.k8s.io/yaml on blobs, DefaultUnstructuredConverter).
 
 import (
+	stdjson "encoding/json"
 	"fmt"
 	"go/types"
 	"reflect"
+	"sort"
 	"strings"
 	"time"
 
@@ -682,6 +684,38 @@ func (i *interpreter) jsonErrorValue(msg string) value {
 	return i.mkError("json: " + msg)
 }
 
+// nativeJSONToValue converts the result of a native json.Unmarshal into interface{} to the engine's generic JSON form.
+func (i *interpreter) nativeJSONToValue(x interface{}) iface {
+	switch v := x.(type) {
+	case nil:
+		return iface{}
+	case string:
+		return iface{tString, v}
+	case bool:
+		return iface{tBool, v}
+	case float64:
+		return iface{tFloat64, v}
+	case []interface{}:
+		out := make([]value, len(v))
+		for k := range v {
+			out[k] = i.nativeJSONToValue(v[k])
+		}
+		return iface{i.tSliceAny(), out}
+	case map[string]interface{}:
+		keys := make([]string, 0, len(v))
+		for k := range v {
+			keys = append(keys, k)
+		}
+		sort.Strings(keys)
+		m := newMap()
+		for _, k := range keys {
+			m.set(k, i.nativeJSONToValue(v[k]))
+		}
+		return iface{i.tMapStringAny(), m}
+	}
+	panic(unsupported(fmt.Sprintf("native JSON value %T", x)))
+}
+
 func registerJSONIntrinsics(e *Engine) {
 	marshal := func(fr *frame, args []value) value {
 		i := fr.i
@@ -725,13 +759,29 @@ func registerJSONIntrinsics(e *Engine) {
 				if b.text == "null" || b.text == "" {
 					j = iface{}
 				} else {
-					panic(unsupported("Unmarshal of concrete JSON text"))
+					var nat interface{}
+					if e := stdjson.Unmarshal([]byte(b.text), &nat); e != nil {
+						return i.jsonErrorValue(e.Error())
+					}
+					j = i.nativeJSONToValue(nat)
 				}
 			} else {
 				j = iface{b.t, b.raw}
 			}
 		case []value:
-			panic(unsupported("Unmarshal of concrete bytes"))
+			bs := make([]byte, len(b))
+			for k := range b {
+				c, ok := b[k].(byte)
+				if !ok {
+					panic(unsupported("Unmarshal of symbolic bytes"))
+				}
+				bs[k] = c
+			}
+			var nat interface{}
+			if e := stdjson.Unmarshal(bs, &nat); e != nil {
+				return i.jsonErrorValue(e.Error())
+			}
+			j = i.nativeJSONToValue(nat)
 		default:
 			panic(unsupported(fmt.Sprintf("Unmarshal of %T", b)))
 		}
